@@ -196,7 +196,136 @@ func (f *FCFG) GuardsOf(n ast.Node) []Fact {
 	return f.GuardsOfLoc(l)
 }
 
+// factVariants closes a set of facts under the equivalent spellings of a
+// comparison: `!(a < b)` is also `a >= b`, and `a < b` is also `b > a`.  Rules
+// look for one spelling; which one the source uses is a matter of style
+// (inverted conditions, guard clauses, De Morgan).
+var negOp = map[token.Token]token.Token{token.EQL: token.NEQ, token.NEQ: token.EQL, token.LSS: token.GEQ, token.GEQ: token.LSS, token.GTR: token.LEQ, token.LEQ: token.GTR}
+var mirrorOp = map[token.Token]token.Token{token.EQL: token.EQL, token.NEQ: token.NEQ, token.LSS: token.GTR, token.GTR: token.LSS, token.LEQ: token.GEQ, token.GEQ: token.LEQ}
+
+type variantKey struct {
+	e    ast.Expr
+	kind int
+}
+
+var variantCache = map[variantKey]*ast.BinaryExpr{}
+
+func factVariants(facts []Fact) []Fact {
+	out := facts
+	for _, f := range facts {
+		if f.Tag != nil {
+			continue
+		}
+		be, ok := ast.Unparen(f.Expr).(*ast.BinaryExpr)
+		if !ok {
+			continue
+		}
+		if _, rel := negOp[be.Op]; !rel {
+			continue
+		}
+		mk := func(kind int, x, y ast.Expr, op token.Token) *ast.BinaryExpr {
+			k := variantKey{be, kind}
+			if v := variantCache[k]; v != nil {
+				return v
+			}
+			v := &ast.BinaryExpr{X: x, OpPos: be.OpPos, Op: op, Y: y}
+			variantCache[k] = v
+			return v
+		}
+		out = append(out,
+			Fact{Expr: mk(1, be.X, be.Y, negOp[be.Op]), Truth: !f.Truth},
+			Fact{Expr: mk(2, be.Y, be.X, mirrorOp[be.Op]), Truth: f.Truth},
+			Fact{Expr: mk(3, be.Y, be.X, negOp[mirrorOp[be.Op]]), Truth: !f.Truth})
+	}
+	return out
+}
+
 func (f *FCFG) GuardsOfLoc(l Loc) []Fact {
+	return factVariants(f.expandBoolLocals(f.guardsOfLoc(l)))
+}
+
+// expandBoolLocals: a fact about a boolean local that is defined exactly once
+// by a compound condition (`removable := !exists && !inUse`; `if removable`)
+// is also a fact about that condition's atoms.
+func (f *FCFG) expandBoolLocals(facts []Fact) []Fact {
+	if f.Info == nil {
+		return facts
+	}
+	out := facts
+	for depth := 0; depth < 3; depth++ {
+		var add []Fact
+		for _, fc := range facts {
+			if fc.Tag != nil {
+				continue
+			}
+			id, ok := ast.Unparen(fc.Expr).(*ast.Ident)
+			if !ok {
+				continue
+			}
+			o := f.Info.ObjectOf(id)
+			if o == nil {
+				continue
+			}
+			var def ast.Expr
+			n := 0
+			ast.Inspect(f.Body, func(x ast.Node) bool {
+				switch y := x.(type) {
+				case *ast.AssignStmt:
+					for i, l := range y.Lhs {
+						if lid, ok := l.(*ast.Ident); ok && f.Info.ObjectOf(lid) == o {
+							n++
+							if len(y.Lhs) == len(y.Rhs) {
+								def = y.Rhs[i]
+							} else {
+								def = nil
+								n += 10
+							}
+						}
+					}
+				case *ast.ValueSpec:
+					for i, nm := range y.Names {
+						if f.Info.ObjectOf(nm) == o && i < len(y.Values) {
+							n++
+							def = y.Values[i]
+						}
+					}
+				case *ast.UnaryExpr:
+					if y.Op == token.AND {
+						if lid, ok := ast.Unparen(y.X).(*ast.Ident); ok && f.Info.ObjectOf(lid) == o {
+							n += 10
+						}
+					}
+				}
+				return true
+			})
+			if n != 1 || def == nil {
+				continue
+			}
+			switch ast.Unparen(def).(type) {
+			case *ast.BinaryExpr, *ast.UnaryExpr:
+				splitCond(def, fc.Truth, &add)
+			}
+		}
+		if len(add) == 0 {
+			break
+		}
+		out = append(out, add...)
+		facts = add
+	}
+	return out
+}
+
+// RawGuardsOf returns the facts as spelled in the source (for rules that
+// quantify over ALL facts of a location).
+func (f *FCFG) RawGuardsOf(n ast.Node) []Fact {
+	l, ok := f.Locate(n)
+	if !ok {
+		return nil
+	}
+	return f.guardsOfLoc(l)
+}
+
+func (f *FCFG) guardsOfLoc(l Loc) []Fact {
 	indexSwitches(f.Body)
 	var facts []Fact
 	for _, b := range f.G.Blocks {
